@@ -183,11 +183,136 @@ static void runRR(const Case& c0, const Case& freeCase, const Vec3& g) {
                                              svDiff(BB.getBodyAcceleration(SB->state), BA.getBodyAcceleration(SA->state))), 1e-7);
 }
 
+// ---- multi-argument FunctionBased mobilizers: spatial functions of TWO OR MORE coordinates with non-zero MIXED second
+// partials, unequal speeds, checked at velocity, Coriolis (HDot*u) and acceleration level.
+struct MultiFn : public Function {
+    enum Kind { PolarX, PolarY, Prod2, SinProd, Prod3, SqProd } kind;
+    explicit MultiFn(Kind k) : kind(k) {}
+    int getArgumentSize() const override { return kind == Prod3 ? 3 : 2; }
+    int getMaxDerivativeOrder() const override { return 2; }
+    Real calcValue(const Vector& x) const override {
+        switch (kind) { case PolarX: return x[1] * std::cos(x[0]); case PolarY: return x[1] * std::sin(x[0]); case Prod2: return x[0] * x[1];
+                        case SinProd: return std::sin(x[0]) * x[1]; case Prod3: return x[0] * x[1] * x[2]; default: return x[1] * x[1] * x[0]; }
+    }
+    Real calcDerivative(const Array_<int>& d, const Vector& x) const override {
+        if (d.size() == 0) return calcValue(x);
+        if (d.size() == 1) { const int i = d[0];
+            switch (kind) { case PolarX: return i == 0 ? -x[1] * std::sin(x[0]) : std::cos(x[0]);
+                            case PolarY: return i == 0 ? x[1] * std::cos(x[0]) : std::sin(x[0]);
+                            case Prod2: return i == 0 ? x[1] : x[0];
+                            case SinProd: return i == 0 ? std::cos(x[0]) * x[1] : std::sin(x[0]);
+                            case Prod3: return i == 0 ? x[1] * x[2] : i == 1 ? x[0] * x[2] : x[0] * x[1];
+                            default: return i == 0 ? x[1] * x[1] : 2 * x[0] * x[1]; } }
+        const int i = std::min(d[0], d[1]), j = std::max(d[0], d[1]);
+        switch (kind) { case PolarX: return (i == 0 && j == 0) ? -x[1] * std::cos(x[0]) : (i == 0 && j == 1) ? -std::sin(x[0]) : 0;
+                        case PolarY: return (i == 0 && j == 0) ? -x[1] * std::sin(x[0]) : (i == 0 && j == 1) ? std::cos(x[0]) : 0;
+                        case Prod2: return (i == 0 && j == 1) ? 1 : 0;
+                        case SinProd: return (i == 0 && j == 0) ? -std::sin(x[0]) * x[1] : (i == 0 && j == 1) ? std::cos(x[0]) : 0;
+                        case Prod3: return i == j ? 0 : (i == 0 && j == 1) ? x[2] : (i == 0 && j == 2) ? x[1] : x[0];
+                        default: return (i == 0 && j == 0) ? 0 : (i == 0 && j == 1) ? 2 * x[1] : 2 * x[0]; }
+    }
+    MultiFn* clone() const override { return new MultiFn(*this); }
+};
+static const char* const fbmName[4] = {"polarBend", "planarPolar", "coupledTrans3", "coupledRot2"};
+static MobilizedBody addMultiFB(MobilizedBody& parent, int family, const Transform& X_PF, const Transform& X_BM, bool rev) {
+    Body::Rigid body(MassProperties(1.3, Vec3(0.1, -0.2, 0.15), UnitInertia(1.1, 1.2, 1.3) * 1.3));
+    std::vector<const Function*> f(6); std::vector<std::vector<int> > ix(6);
+    for (int i = 0; i < 6; ++i) f[i] = 0;
+    auto lin = [&](int slot, int coord) { Vector c(2); c[0] = 1; c[1] = 0; f[slot] = new Function::Linear(c); ix[slot] = std::vector<int>(1, coord); };
+    auto mf = [&](int slot, MultiFn::Kind k, std::vector<int> coords) { f[slot] = new MultiFn(k); ix[slot] = coords; };
+    int nm = 2;
+    switch (family) {
+      case 0: nm = 2; lin(2, 0); mf(3, MultiFn::PolarX, {0, 1}); mf(4, MultiFn::PolarY, {0, 1}); break;            // = BendStretch
+      case 1: nm = 3; lin(2, 0); mf(3, MultiFn::PolarX, {2, 1}); mf(4, MultiFn::PolarY, {2, 1}); break;            // Planar, polar translation
+      case 2: nm = 3; mf(3, MultiFn::Prod2, {0, 1}); mf(4, MultiFn::SinProd, {0, 1}); mf(5, MultiFn::Prod3, {0, 1, 2}); break;
+      default: nm = 2; lin(0, 0); lin(1, 1); mf(3, MultiFn::Prod2, {0, 1}); mf(4, MultiFn::SinProd, {0, 1}); mf(5, MultiFn::SqProd, {0, 1}); break;
+    }
+    for (int i = 0; i < 6; ++i) if (!f[i]) f[i] = new Function::Constant(0, 0);
+    return MobilizedBody::FunctionBased(parent, X_PF, body, X_BM, nm, f, ix, rev ? MobilizedBody::Reverse : MobilizedBody::Forward);
+}
+struct MiniSys { MultibodySystem system; SimbodyMatterSubsystem matter; GeneralForceSubsystem forces; std::vector<MobilizedBody> mobods; State state;
+                 MiniSys() : matter(system), forces(system) {} };
+static void finishMini(MiniSys& S, const Vec3& g) {
+    Force::UniformGravity(S.forces, S.matter, g);
+    S.system.realizeTopology(); S.state = S.system.getDefaultState(); S.system.realizeModel(S.state);
+}
+static void runFBM(int family, bool rev, unsigned long seed) {
+    vh::Rng g(seed * 2654435761ull + 17);
+    const Transform X_PF = randomFrame(g, g.below(3)), X_BM = randomFrame(g, g.below(3));
+    const Transform cF = randomFrame(g, 2), cM = randomFrame(g, 1);         // a Pin child couples the dynamics
+    const Vec3 grav(g.signedMag(1, 10), g.signedMag(1, 10), g.signedMag(1, 10));
+    double q[3] = {g.range(-2.5, 2.5), g.signedMag(0.4, 2), g.range(-2.5, 2.5)};
+    double u[3] = {g.signedMag(0.3, 2), g.signedMag(0.3, 2), g.signedMag(0.3, 2)};      // unequal, non-zero speeds
+    if (family == 2) q[0] = g.signedMag(0.4, 1.2);
+    const double qc = g.range(-3, 3), uc = g.signedMag(0.3, 2);
+    Body::Rigid body(MassProperties(1.3, Vec3(0.1, -0.2, 0.15), UnitInertia(1.1, 1.2, 1.3) * 1.3));
+
+    MiniSys A;
+    A.mobods.push_back(addMultiFB(A.matter.updGround(), family, X_PF, X_BM, rev));
+    A.mobods.push_back(MobilizedBody::Pin(A.mobods[0], cF, body, cM));
+    finishMini(A, grav);
+    const int nm = A.mobods[0].getNumQ(A.state);
+    for (int k = 0; k < nm; ++k) { A.mobods[0].setOneQ(A.state, k, q[k]); A.mobods[0].setOneU(A.state, k, u[k]); }
+    A.mobods[1].setOneQ(A.state, 0, qc); A.mobods[1].setOneU(A.state, 0, uc);
+    A.system.realize(A.state, Stage::Acceleration);
+
+    std::printf("I fbm %d %d %lu\n", family, (int)rev, seed);
+    vh::D(std::string("fbm.") + fbmName[family] + (rev ? ".rev" : ".fwd"));
+    const std::string key = std::string("C06.fbm.") + fbmName[family];
+
+    // (a) implementation-only: velocity is d/dt pose, total Coriolis acceleration is d/dt V at fixed u (u = qdot here)
+    {
+        const double h = 1e-5; double eV = 0, eC = 0;
+        State sp = A.state, sm = A.state;
+        sp.updQ() = A.state.getQ() + h * A.state.getQDot(); sm.updQ() = A.state.getQ() - h * A.state.getQDot();
+        A.system.realize(sp, Stage::Velocity); A.system.realize(sm, Stage::Velocity);
+        for (const MobilizedBody& m : A.mobods) {
+            eV = std::max(eV, svDiff(fdVelocity(m.getBodyTransform(sm), m.getBodyTransform(sp), h), m.getBodyVelocity(A.state)));
+            const SpatialVec Vd = (m.getBodyVelocity(sp) - m.getBodyVelocity(sm)) / (2 * h);
+            eC = std::max(eC, svDiff(Vd, A.matter.getTotalCoriolisAcceleration(A.state, m.getMobilizedBodyIndex())));
+        }
+        vh::P("fd_vel", key + ".fd_vel", eV, 1e-6);
+        vh::P("fd_cor", key + ".fd_cor", eC, 1e-6);
+    }
+    // (b) twin built from a built-in mobilizer of the same mobility: BendStretch (same q,u), Planar / Translation (fitted)
+    if (family <= 2) {
+        MiniSys B;
+        MobilizedBody::Direction d = rev ? MobilizedBody::Reverse : MobilizedBody::Forward;
+        if (family == 0) B.mobods.push_back(MobilizedBody::BendStretch(B.matter.updGround(), X_PF, body, X_BM, d));
+        else if (family == 1) B.mobods.push_back(MobilizedBody::Planar(B.matter.updGround(), X_PF, body, X_BM, d));
+        else B.mobods.push_back(MobilizedBody::Translation(B.matter.updGround(), X_PF, body, X_BM, d));
+        B.mobods.push_back(MobilizedBody::Pin(B.mobods[0], cF, body, cM));
+        finishMini(B, grav);
+        if (family == 0) for (int k = 0; k < 2; ++k) { B.mobods[0].setOneQ(B.state, k, q[k]); B.mobods[0].setOneU(B.state, k, u[k]); }
+        else { B.mobods[0].setQToFitTransform(B.state, A.mobods[0].getMobilizerTransform(A.state));
+               B.mobods[0].setUToFitVelocity(B.state, A.mobods[0].getMobilizerVelocity(A.state)); }
+        B.mobods[1].setOneQ(B.state, 0, qc); B.mobods[1].setOneU(B.state, 0, uc);
+        B.system.realize(B.state, Stage::Acceleration);
+        double eX = 0, eV = 0, eA = 0, eC = 0;
+        for (int i = 0; i < 2; ++i) {
+            eX = std::max(eX, xfDiff(A.mobods[i].getBodyTransform(A.state), B.mobods[i].getBodyTransform(B.state)));
+            eV = std::max(eV, svDiff(A.mobods[i].getBodyVelocity(A.state), B.mobods[i].getBodyVelocity(B.state)));
+            eA = std::max(eA, svDiff(A.mobods[i].getBodyAcceleration(A.state), B.mobods[i].getBodyAcceleration(B.state)));
+            eC = std::max(eC, svDiff(A.matter.getTotalCoriolisAcceleration(A.state, A.mobods[i].getMobilizedBodyIndex()),
+                                     B.matter.getTotalCoriolisAcceleration(B.state, B.mobods[i].getMobilizedBodyIndex())));
+        }
+        vh::P("twin_pose", key + ".twin_pose", eX, 1e-9);
+        vh::P("twin_vel", key + ".twin_vel", eV, 1e-9);
+        vh::P("twin_acc", key + ".twin_acc", eA, 1e-7);
+        if (family == 0) {      // same coordinates: HDot*u and udot are directly comparable
+            vh::P("twin_cor", key + ".twin_cor", eC, 1e-9);
+            double eU = 0; for (int k = 0; k < A.state.getNU(); ++k) eU = std::max(eU, std::abs(A.state.getUDot()[k] - B.state.getUDot()[k]) / std::max(1.0, std::abs(B.state.getUDot()[k])));
+            vh::P("twin_udot", key + ".twin_udot", eU, 1e-7);
+        }
+    }
+}
+
 static void replay() {
     static char buf[1 << 18];
     while (std::fgets(buf, sizeof buf, stdin)) {
         std::istringstream is(buf); std::string k, fn; is >> k >> fn;
         if (k != "I") continue;
+        if (fn == "fbm") { int fam, rv; unsigned long sd; if (is >> fam >> rv >> sd) runFBM(fam, rv != 0, sd); continue; }
         if (fn == "fb") { Case c; if (getCase(is, c)) runFB(c); continue; }
         if (fn == "rr") { Case c; if (getCase(is, c)) { vh::Rng g(4242); Case f = randomCase(g, FREE, 0, 0, false, c.euler);
                           runRR(c, f, Vec3(1.5, -9.0, 2.5)); } continue; }
@@ -226,6 +351,8 @@ int main(int argc, char** argv) {
     const int fbTypes[8] = {PIN, SLIDER, CYLINDER, PLANAR, UNIVERSAL, GIMBAL, BUSHING, TRANSLATION};
     for (long k = 0; k < std::max<long>(16, args.n / 3); ++k)
         runFB(randomCase(g, fbTypes[k % 8], g.below(3), g.below(3), (k / 8) % 2 == 1, false));
+    // multi-argument FunctionBased families x direction: floor of 5 per class
+    for (long k = 0; k < std::max<long>(40, args.n / 6); ++k) runFBM((int)(k % 4), (k / 4) % 2 == 1, (unsigned long)(args.seed * 100000 + k));
     for (long k = 0; k < std::max<long>(2 * (NTYPES - 1), args.n / 3); ++k) {
         int t = k % NTYPES; if (t == WELD) continue;
         const bool euler = (k / NTYPES) % 2 == 1;
